@@ -177,35 +177,36 @@ Record st := {
   s_out : list ores;    (* newest first *)
   s_conns : list (nat * cst);   (* newest binding first *)
   s_opconn : list (nat * nat);  (* op index -> connection its statement ran on *)
-  s_gone : list nat             (* connections database/sql no longer has in its pool *)
+  s_gone : list nat;            (* connections database/sql no longer has in its pool *)
+  s_closed : list nat           (* sessions that are closed (driver Close of a connection that is not held, or dropped) *)
 }.
 
 Definition init : st :=
   {| s_brs := []; s_nreg := 0; s_nconn := 1 (* #0 is the version probe of sql.Open *); s_nop := 0;
-     s_cnt := fun _ => 0%nat; s_jour := []; s_out := []; s_conns := []; s_opconn := []; s_gone := [] |}.
+     s_cnt := fun _ => 0%nat; s_jour := []; s_out := []; s_conns := []; s_opconn := []; s_gone := []; s_closed := [] |}.
 
 Definition add_ev (s : st) (e : ev) : st :=
   {| s_brs := s_brs s; s_nreg := s_nreg s; s_nconn := s_nconn s; s_nop := s_nop s; s_cnt := s_cnt s;
-     s_jour := e :: s_jour s; s_out := s_out s; s_conns := s_conns s; s_opconn := s_opconn s; s_gone := s_gone s |}.
+     s_jour := e :: s_jour s; s_out := s_out s; s_conns := s_conns s; s_opconn := s_opconn s; s_gone := s_gone s; s_closed := s_closed s |}.
 Definition set_brs (s : st) (l : list br) : st :=
   {| s_brs := l; s_nreg := s_nreg s; s_nconn := s_nconn s; s_nop := s_nop s; s_cnt := s_cnt s;
-     s_jour := s_jour s; s_out := s_out s; s_conns := s_conns s; s_opconn := s_opconn s; s_gone := s_gone s |}.
+     s_jour := s_jour s; s_out := s_out s; s_conns := s_conns s; s_opconn := s_opconn s; s_gone := s_gone s; s_closed := s_closed s |}.
 Definition bump_conn (s : st) : st :=
   {| s_brs := s_brs s; s_nreg := s_nreg s; s_nconn := S (s_nconn s); s_nop := s_nop s; s_cnt := s_cnt s;
-     s_jour := s_jour s; s_out := s_out s; s_conns := s_conns s; s_opconn := s_opconn s; s_gone := s_gone s |}.
+     s_jour := s_jour s; s_out := s_out s; s_conns := s_conns s; s_opconn := s_opconn s; s_gone := s_gone s; s_closed := s_closed s |}.
 Definition bump_reg (s : st) : st :=
   {| s_brs := s_brs s; s_nreg := S (s_nreg s); s_nconn := s_nconn s; s_nop := s_nop s; s_cnt := s_cnt s;
-     s_jour := s_jour s; s_out := s_out s; s_conns := s_conns s; s_opconn := s_opconn s; s_gone := s_gone s |}.
+     s_jour := s_jour s; s_out := s_out s; s_conns := s_conns s; s_opconn := s_opconn s; s_gone := s_gone s; s_closed := s_closed s |}.
 Definition set_conn (s : st) (c : nat) (x : cst) : st :=
   {| s_brs := s_brs s; s_nreg := s_nreg s; s_nconn := s_nconn s; s_nop := s_nop s; s_cnt := s_cnt s;
-     s_jour := s_jour s; s_out := s_out s; s_conns := (c, x) :: s_conns s; s_opconn := s_opconn s; s_gone := s_gone s |}.
+     s_jour := s_jour s; s_out := s_out s; s_conns := (c, x) :: s_conns s; s_opconn := s_opconn s; s_gone := s_gone s; s_closed := s_closed s |}.
 Definition set_opconn (s : st) (c : nat) : st :=
   {| s_brs := s_brs s; s_nreg := s_nreg s; s_nconn := s_nconn s; s_nop := s_nop s; s_cnt := s_cnt s;
-     s_jour := s_jour s; s_out := s_out s; s_conns := s_conns s; s_opconn := (s_nop s, c) :: s_opconn s; s_gone := s_gone s |}.
+     s_jour := s_jour s; s_out := s_out s; s_conns := s_conns s; s_opconn := (s_nop s, c) :: s_opconn s; s_gone := s_gone s; s_closed := s_closed s |}.
 (* the op is over: record its outcome *)
 Definition finish (s : st) (o : ores) : st :=
   {| s_brs := s_brs s; s_nreg := s_nreg s; s_nconn := s_nconn s; s_nop := S (s_nop s); s_cnt := s_cnt s;
-     s_jour := s_jour s; s_out := o :: s_out s; s_conns := s_conns s; s_opconn := s_opconn s; s_gone := s_gone s |}.
+     s_jour := s_jour s; s_out := o :: s_out s; s_conns := s_conns s; s_opconn := s_opconn s; s_gone := s_gone s; s_closed := s_closed s |}.
 
 Fixpoint lookup {A} (k : nat) (l : list (nat * A)) : option A :=
   match l with
@@ -230,7 +231,12 @@ Definition emit (s : st) (conn : nat) (id : bytes) (t : list (cmd * res)) : st :
   {| s_brs := s_brs s; s_nreg := s_nreg s; s_nconn := s_nconn s; s_nop := s_nop s;
      s_cnt := fun c => (s_cnt s c + count_cmd c t)%nat;
      s_jour := List.rev (map (fun cr => ESql conn (fst cr) id (snd cr)) t) ++ s_jour s; s_out := s_out s;
-     s_conns := s_conns s; s_opconn := s_opconn s; s_gone := s_gone s |}.
+     s_conns := s_conns s; s_opconn := s_opconn s; s_gone := s_gone s; s_closed := s_closed s |}.
+
+Definition close_conn (s : st) (c : nat) : st :=
+  {| s_brs := s_brs s; s_nreg := s_nreg s; s_nconn := s_nconn s; s_nop := s_nop s; s_cnt := s_cnt s;
+     s_jour := s_jour s; s_out := s_out s; s_conns := s_conns s; s_opconn := s_opconn s; s_gone := s_gone s;
+     s_closed := c :: s_closed s |}.
 
 Definition mk_br (o : nat) (xid : bytes) (b : N) (conn : nat) (d : dbst) (kept sfail : bool) : br :=
   {| r_op := o; r_xid := xid; r_b := b; r_conn := conn; r_db := d; r_kept := kept; r_fin := false; r_sfail := sfail |}.
@@ -320,7 +326,8 @@ Definition retire_conn (s : st) (c : nat) : st :=
                  s_nreg := s_nreg s; s_nconn := s_nconn s; s_nop := s_nop s; s_cnt := s_cnt s;
                  s_jour := s_jour s; s_out := s_out s;
                  s_conns := if c_kept cs then s_conns s else (c, cst0) :: s_conns s;
-                 s_opconn := s_opconn s; s_gone := c :: s_gone s |} in
+                 s_opconn := s_opconn s; s_gone := c :: s_gone s;
+                 s_closed := if c_kept cs then s_closed s else c :: s_closed s |} in
     s1.
 
 Definition do_auto_core (E : env) (s0 : st) (g : nat) (via : option nat) (slow : bool) : st :=
@@ -408,14 +415,17 @@ Definition do_p2 (E : env) (s : st) (t : nat) (commit stranger : bool) : st :=
       let c := if commit then COMMIT else ROLLBACK in
       let strg := stranger && is_prepared (r_db r) in
       (* stranger: the phase-one process is gone: session dropped, nobody holds the connection *)
-      let s := if strg then set_brs (add_ev s (EKill (r_conn r))) (upd_br unkeep t (kill_conn (r_conn r) (s_brs s))) else s in
+      let s := if strg then close_conn (set_brs (add_ev s (EKill (r_conn r))) (upd_br unkeep t (kill_conn (r_conn r) (s_brs s)))) (r_conn r) else s in
       let d := if strg then srv_kill (r_db r) else r_db r in
       let kept := if strg then false else r_kept r in
       let conn := if kept then r_conn r else s_nconn s in
       let busy := busy_on (s_brs s) conn t in
-      let '(cr, d') := p2_local (e_detach E) (e_fault E c (s_cnt s c)) d kept busy commit in
+      let '(cr, d1) := p2_local (e_detach E) (e_fault E c (s_cnt s c)) d kept busy commit in
+      (* the keeper's connection may have been closed meanwhile: the driver answers ErrBadConn, nothing reaches the server *)
+      let dead := kept && existsb (Nat.eqb conn) (s_closed s) in
+      let d' := if dead then d else d1 in
       let s := if kept then s else bump_conn s in
-      let s := emit s conn id [cr] in
+      let s := emit s conn id (if dead then [] else [cr]) in
       (* releaseIfNecessary of the serving XAConn *)
       let cs := get_cst s conn in
       let rel := if kept && c_kept cs then c_cur cs else None in
@@ -423,7 +433,7 @@ Definition do_p2 (E : env) (s : st) (t : nat) (commit stranger : bool) : st :=
                then set_conn s conn {| c_active := c_active cs; c_kept := false; c_cur := c_cur cs |} else s in
       let l := upd_br (fun x => set_db_kept d' (r_kept x) true x) t (s_brs s) in
       let l := match rel with Some o => upd_br unkeep o l | None => l end in
-      finish (set_brs s l) (OP2 (res_ok (snd cr)))
+      finish (set_brs s l) (OP2 (if dead then false else res_ok (snd cr)))
     else finish s OSkipped
   end.
 
